@@ -632,8 +632,10 @@ impl BitVector for Bvd {
 
 impl Hash for Bvd {
     fn hash<H: Hasher>(&self, state: &mut H) {
-        self.length.hash(state);
-        for i in 0..Self::capacity_from_bit_len(self.length) {
+        // Equality ignores the length (zero extension), so the hash must too.
+        let significant_bits = self.significant_bits();
+        significant_bits.hash(state);
+        for i in 0..Self::capacity_from_bit_len(significant_bits) {
             self.data[i].hash(state);
         }
     }
